@@ -207,6 +207,12 @@ func checkC16(w *World, c *Check, tier string) {
 		c.stat("dedup_calls_in_flatteners", ncalls)
 	}
 	checkFlattenDispatch(w, c)
+	// the flatteners de-duplicate every list through the recipient de-duplicator: its rules (order-preserving splice, one
+	// record per entry, entries without an id left alone) are conditions of "embedded objects without an id stay as they
+	// were" and "nothing else changes" here too
+	if dd := w.Func("ItemCollectionDeduplication"); dd != nil {
+		checkSplice(w, c, pr, "C16.dedup", dd)
+	}
 	assigns := collectAssigns(w, pr, clos)
 	covered := map[string]bool{}
 	for _, a := range assigns {
